@@ -11,6 +11,7 @@ pub mod c10;
 pub mod c13;
 pub mod c14;
 pub mod c16;
+pub mod c17;
 pub mod c18;
 pub mod c19;
 
@@ -66,6 +67,7 @@ pub fn run(id: &str, ctx: &mut Ctx) -> bool {
         "C13" => c13::run(ctx),
         "C14" => c14::run(ctx),
         "C16" => c16::run(ctx),
+        "C17" => c17::run(ctx),
         "C18" => c18::run(ctx),
         "C19" => c19::run(ctx),
         _ => return false,
@@ -112,6 +114,7 @@ pub fn replay_value(id: &str, ctx: &mut Ctx, r: &serde_json::Value) -> bool {
         "C13" => c13::replay(ctx, r),
         "C14" => c14::replay(ctx, r),
         "C16" => c16::replay(ctx, r),
+        "C17" => c17::replay(ctx, r),
         "C18" => c18::replay(ctx, r),
         "C19" => c19::replay(ctx, r),
         _ => {
